@@ -33,6 +33,9 @@ type R struct {
 	key   storetypes.StoreKey
 	g     *hx.Rng        // per-history generator stream (see ResetLine)
 	Stats map[string]int // finer histogram than op/result (appended to <out>.stats by the command)
+	// Genesis makes Gen emit `htlc export` / `htlc reimport` now and then (C12 runs only: the
+	// C03/C04/C13 histories stay what they were)
+	Genesis bool
 }
 
 func New(env *hx.Env) *R {
@@ -317,6 +320,85 @@ func (r *R) state(ctx sdk.Context) string {
 		join(hs), join(qs), join(ss), join(bs), join(us))
 }
 
+// genesisView is the part of the observation an export/import round trip must preserve: the
+// module tables restricted to OPEN contracts (ExportGenesis drops closed ones by design) with their
+// queue entries, the supplies, the parameters, the previous block time, and the bank slice.
+func (r *R) genesisView(ctx sdk.Context) string {
+	prev, params, hs, qs, ss := r.moduleParts(ctx, true)
+	full := r.state(ctx)
+	i := strings.Index(full, " bals=")
+	return fmt.Sprintf("prev=%s params=%s htlcs=%s queue=%s sup=%s%s", prev, params, join(hs), join(qs), join(ss), full[i:])
+}
+
+// genesisLine renders the real exported genesis document canonically (contracts and supplies as
+// sorted sets; the document lists them in store order).
+func (r *R) genesisLine(gs *htlctypes.GenesisState) string {
+	var hs, ss []string
+	for _, h := range gs.Htlcs {
+		hs = append(hs, fmt.Sprintf("%s:%s:%s:%s:%s:%s:%d:%d:%s:%d:%s:%s", strings.ToLower(h.Id), r.sym(h.Sender), r.sym(h.To),
+			showCoins(h.Amount), strings.ToLower(h.HashLock), dashS(strings.ToLower(h.Secret)), h.Timestamp, h.ExpirationHeight,
+			stateLetter(h.State), h.ClosedBlock, b01(h.Transfer), dirLetter(h.Direction)))
+	}
+	for _, s := range gs.Supplies {
+		ss = append(ss, fmt.Sprintf("%s:%s:%s:%s:%s:%d", s.CurrentSupply.Denom, s.IncomingSupply.Amount, s.OutgoingSupply.Amount,
+			s.CurrentSupply.Amount, s.TimeLimitedCurrentSupply.Amount, int64(s.TimeElapsed)))
+	}
+	return fmt.Sprintf("gprev=%d gparams=%s ghtlcs=%s gsup=%s", gs.PreviousBlockTime.UnixNano(), r.showAssets(gs.Params.AssetParams), join(hs), join(ss))
+}
+
+// genesisStats records which interesting shapes the exported states have (histogram only): an asset
+// whose current supply exceeds half its limit, open outgoing transfers, and both at once with
+// current + outgoing above the limit (legal: only incoming + current is bounded by the limit).
+func (r *R) genesisStats(ctx sdk.Context, op string) {
+	k := r.env.HTLC
+	for _, s := range k.GetAllAssetSupplies(ctx) {
+		a, err := k.GetAsset(ctx, s.CurrentSupply.Denom)
+		if err != nil {
+			r.Stats["x."+op+".state.supply-without-asset"]++
+			continue
+		}
+		lim := a.SupplyLimit.Limit
+		tl := "untimed"
+		if a.SupplyLimit.TimeLimited {
+			tl = "timed"
+		}
+		if s.CurrentSupply.Amount.MulRaw(2).GT(lim) {
+			r.Stats["x."+op+".state.current-over-half."+tl]++
+		}
+		if s.OutgoingSupply.Amount.IsPositive() {
+			r.Stats["x."+op+".state.open-outgoing."+tl]++
+		}
+		if s.IncomingSupply.Amount.IsPositive() {
+			r.Stats["x."+op+".state.open-incoming."+tl]++
+		}
+		if s.OutgoingSupply.Amount.IsPositive() && s.OutgoingSupply.Amount.Add(s.CurrentSupply.Amount).GT(lim) {
+			r.Stats["x."+op+".state.current+outgoing-over-limit."+tl]++
+		}
+	}
+}
+
+// GenesisDoc renders the module's real exported genesis canonically (the rendering of `htlc export`);
+// h_genesis prints it next to a failed import so that the Lean model can be asked whether ITS
+// InitGenesis refuses the same document (class F-gen-5 only then).
+func (r *R) GenesisDoc(ctx sdk.Context) string {
+	return r.genesisLine(htlcmod.ExportGenesis(ctx, r.env.HTLC))
+}
+
+// panicSlug classifies the panic message of a failed InitGenesis (histogram only).
+func panicSlug(info string) string {
+	switch {
+	case strings.Contains(info, "asset not found"), strings.Contains(info, htlctypes.ErrAssetNotSupported.Error()):
+		return "asset-not-found"
+	case strings.Contains(info, "inactive"), strings.Contains(info, htlctypes.ErrAssetNotActive.Error()):
+		return "asset-inactive"
+	case strings.Contains(info, "over the supply limit"):
+		return "over-limit"
+	case strings.Contains(info, "does not match"):
+		return "supply-mismatch"
+	}
+	return "other"
+}
+
 // ---------------------------------------------------------------- reset
 
 const baseTime = int64(1700000000) * 1000000000
@@ -467,6 +549,14 @@ func (r *R) Gen(ctx sdk.Context, g *hx.Rng) string {
 	if r.g != nil {
 		g = r.g
 	}
+	if r.Genesis && g.Chance(1, 9) {
+		// C12: the genesis round trip inside the history; the operations that follow a `reimport`
+		// run on the re-imported state (rebuilt queue, restored supplies and previous block time)
+		if g.Chance(2, 5) {
+			return "htlc export"
+		}
+		return "htlc reimport"
+	}
 	k := r.env.HTLC
 	all := r.htlcs(ctx)
 	var open []htlctypes.HTLC
@@ -526,6 +616,14 @@ func (r *R) Gen(ctx sdk.Context, g *hx.Rng) string {
 	}
 	create := func(sender, to string, coins string, lock string, ts, tl int64, transfer bool) string {
 		return "htlc create " + hx.KV("sender", sender, "to", to, "coins", coins, "lock", lock, "ts", ts, "tl", tl, "transfer", b01(transfer))
+	}
+	if r.Genesis && g.Chance(1, 5) {
+		// C12: steer towards the states whose export exercises the supply assertions of InitGenesis:
+		// current supply above half the limit (claimed incoming transfers) together with open outgoing
+		// transfers, so that current + outgoing exceeds the limit (legal) at export time
+		if l := r.genGoal(ctx, g, open, create, lockOf); l != "" {
+			return l
+		}
 	}
 	kind := g.Pick(7, 6, 6, 14, 7, 2, 6, 2, 2)
 	if len(assets) == 0 && (kind == 1 || kind == 2) {
@@ -859,6 +957,72 @@ func (r *R) Gen(ctx sdk.Context, g *hx.Rng) string {
 	}
 }
 
+// genGoal draws one goal-directed operation for the C12 histories (see Gen); "" = nothing applicable.
+func (r *R) genGoal(ctx sdk.Context, g *hx.Rng, open []htlctypes.HTLC,
+	create func(sender, to, coins, lock string, ts, tl int64, transfer bool) string, lockOf func(int, int64) string) string {
+	k := r.env.HTLC
+	assets := k.GetParams(ctx).AssetParams
+	if len(assets) == 0 {
+		return ""
+	}
+	a := assets[g.Intn(len(assets))]
+	sup, ok := k.GetAssetSupply(ctx, a.Denom)
+	if !ok || !a.Active {
+		return ""
+	}
+	now := ctx.BlockTime().Unix()
+	lim := a.SupplyLimit.Limit.Int64()
+	cur, inc, out := sup.CurrentSupply.Amount.Int64(), sup.IncomingSupply.Amount.Int64(), sup.OutgoingSupply.Amount.Int64()
+	dep := r.sym(a.DeputyAddress)
+	ts := now + g.Range(-100, 100)
+	if cur*2 <= lim {
+		for _, h := range open { // claim an open incoming transfer of the asset with the right secret
+			if h.Transfer && h.Direction == htlctypes.Incoming && h.Amount[0].Denom == a.Denom {
+				if ks := secretFor(h); ks >= 0 {
+					return "htlc claim " + hx.KV("sender", hx.AccName(g.Intn(nAcc)), "id", strings.ToLower(h.Id), "secret", hex.EncodeToString(secretN(ks)))
+				}
+			}
+		}
+		room := lim - cur - inc
+		if a.SupplyLimit.TimeLimited {
+			if tr := a.SupplyLimit.TimeBasedLimit.Int64() - sup.TimeLimitedCurrentSupply.Amount.Int64() - inc; tr < room {
+				room = tr
+			}
+		}
+		amt := room
+		if mx := a.MaxSwapAmount.Int64(); amt > mx {
+			amt = mx
+		}
+		to := hx.AccName(g.Intn(4))
+		if amt < a.MinSwapAmount.Int64() || amt <= 0 || to == dep {
+			return ""
+		}
+		return create(dep, to, fmt.Sprintf("%s*%d", a.Denom, amt), lockOf(g.Intn(nSecrets), ts), ts, g.Range(50, 60), true)
+	}
+	if out+cur <= lim {
+		need := lim - cur - out + 1
+		if mn := a.MinSwapAmount.Int64() + a.FixedFee.Int64(); need < mn {
+			need = mn
+		}
+		for i := 0; i < nAcc; i++ {
+			sender := hx.AccName(i)
+			bal := r.env.Bal(ctx, r.addr(sender), a.Denom).Int64()
+			if sender != dep && bal >= need && need <= cur-out && need <= a.MaxSwapAmount.Int64() {
+				amt := need + g.Range(0, 2)
+				if amt > bal || amt > cur-out || amt > a.MaxSwapAmount.Int64() {
+					amt = need
+				}
+				return create(sender, dep, fmt.Sprintf("%s*%d", a.Denom, amt), lockOf(g.Intn(nSecrets), ts), ts, int64(a.MinBlockLock), true)
+			}
+		}
+		return ""
+	}
+	if g.Chance(1, 3) {
+		return "htlc export"
+	}
+	return "htlc reimport"
+}
+
 // ---------------------------------------------------------------- execution
 
 // countDue records how many contracts fall due in the block about to begin (bucket sizes).
@@ -911,6 +1075,57 @@ func (r *R) Exec(ctx sdk.Context, line string) (sdk.Context, string) {
 	}
 	var msg sdk.Msg
 	switch f[1] {
+	case "export":
+		// the module has no end blocker: the state after any transaction of a block is the state the
+		// block commits, i.e. a state an application can export
+		gs := htlcmod.ExportGenesis(ctx, r.env.HTLC)
+		r.genesisStats(ctx, "export")
+		v := "ok"
+		if p, _ := hx.NoPanic(func() {
+			if err := htlctypes.ValidateGenesis(*gs); err != nil {
+				v = "err"
+			}
+		}); p {
+			v = "panic"
+		}
+		r.Stats["x.export.validate."+v]++
+		return ctx, fmt.Sprintf("ok validate=%s %s %s", v, r.genesisLine(gs), r.state(ctx))
+	case "reimport":
+		// export, wipe the module store, InitGenesis of the exported document (a panicking import is
+		// discarded: the chain could not start; the history goes on from the exported state)
+		before := r.genesisView(ctx)
+		closed := 0
+		for _, h := range r.htlcs(ctx) {
+			if h.State != htlctypes.Open {
+				closed++
+			}
+		}
+		gs := htlcmod.ExportGenesis(ctx, r.env.HTLC)
+		r.genesisStats(ctx, "reimport")
+		class, info := hx.Try(ctx, func(c sdk.Context) error {
+			st := c.KVStore(r.key)
+			it := storetypes.KVStorePrefixIterator(st, nil)
+			var keys [][]byte
+			for ; it.Valid(); it.Next() {
+				keys = append(keys, append([]byte{}, it.Key()...))
+			}
+			it.Close()
+			for _, k := range keys {
+				st.Delete(k)
+			}
+			htlcmod.InitGenesis(c, r.env.HTLC, *gs)
+			return nil
+		})
+		same := 0
+		if before == r.genesisView(ctx) {
+			same = 1
+		}
+		if class == hx.OK {
+			r.Stats[fmt.Sprintf("x.reimport.ok.open%d.closed%d", min(len(gs.Htlcs), 3), min(closed, 3))]++
+		} else {
+			r.Stats["x.reimport."+class+"."+panicSlug(info)]++
+		}
+		return ctx, fmt.Sprintf("%s same=%d %s", class, same, r.state(ctx))
 	case "create":
 		msg = &htlctypes.MsgCreateHTLC{Sender: r.addr(a["sender"]).String(), To: r.addr(a["to"]).String(),
 			ReceiverOnOtherChain: "r", SenderOnOtherChain: "s", Amount: parseCoins(a["coins"]), HashLock: a["lock"],
